@@ -1782,6 +1782,109 @@ def rule_r20(ctx):
         raise AnalysisBroken("no transport shortens a kept receive buffer any more (udp_recv_data)")
 
 
+# ---------------------------------------------------------------------------
+# R21: once the init slot has run, a failing constructor runs the fini slot
+
+
+def rule_r21(ctx):
+    r = ctx.rule("C20.R21", "T2", "once the protocol's / transport's init slot has run on a new object, every error return of the constructor "
+                 "passes the matching fini slot (directly or through the object's destroyer): the init slot links the object "
+                 "into the protocol's lists and allocates its queues, and the raw free that is right before it leaves a freed "
+                 "object on those lists and leaks the queues", floor=3)
+    prog = ctx.prog
+    n = 0
+    for islot, fslot in INIT_FINI:
+        # functions that run the fini slot on every path (destroyers), one level
+        destroyers = {f.name for f in prog.functions if not f.cfg_failed and slot_calls(f, fslot)}
+        for F in prog.functions:
+            if F.cfg_failed:
+                continue
+            inits = slot_calls(F, islot)
+            if not inits:
+                continue
+            fin = {(s.b, s.i) for s in slot_calls(F, fslot)} | {(c.b, c.i) for c in F.calls() if c.node.get("fn") in destroyers} | \
+                {(c.b, c.i) for c in F.calls() if (c.node.get("fn") or "").endswith(("_rele", "_close", "_reap"))}
+            from .. import guards as G
+            errs = []
+            for t in F.sites():
+                if t.node.get("k") != "ret" or t.node.get("e") is None:
+                    continue
+                v = F.expand(t.node["e"])
+                while v is not None and v.get("k") == "cast":
+                    v = v["e"]
+                if v is None or const_of(v) == 0:
+                    continue
+                if v.get("k") == "var":
+                    # `return (rv)`: an error return where a test has established rv != 0
+                    nz = G.nz_edges(F, lambda x, nm=v["n"]: (x.get("k") == "var" and x["n"] == nm) or
+                                    (x.get("k") == "asg" and x["lhs"].get("k") == "var" and x["lhs"]["n"] == nm))
+                    if not (nz and G.dominated(F, (t.b, t.i), nz)):
+                        continue
+                errs.append((t.b, t.i))
+            for s in inits:
+                n += 1
+                # the init slot's own failure is the slot's business (it undoes itself): the edge on which it failed is not followed
+                cut = {}
+                for b_, (nz_, z_) in (F.value_edges(s) or {}).items():
+                    cut[b_] = nz_
+                seen = F.reach((s.b, s.i + 1), blocked=lambda b, i, e: (b, i) in fin, edge_ok=lambda b, k: not (b in cut and cut[b] == k))
+                real = [e_ for e_ in errs if e_ in seen]
+                if real:
+                    ctx.fail(r, F, "error return after %s without %s" % (islot.split(".")[1], fslot.split(".")[1]), F.line_of(*real[0]),
+                             "%s runs the %s slot (line %s) and can then return an error (line %s) without the %s slot or the object's "
+                             "destroyer: what the init slot linked and allocated stays behind while the object is freed"
+                             % (F.name, islot.split(".")[1], s.line, F.line_of(*real[0]), fslot.split(".")[1]))
+                else:
+                    r.ob(F, "%s: every error return after %s passes %s" % (F.name, islot.split(".")[1], fslot.split(".")[1]))
+    if n < 3:
+        raise AnalysisBroken("only %d init slot calls found" % n)
+
+
+# ---------------------------------------------------------------------------
+# R22: a subsystem's fini, called to unwind its own failing init, sees only what this init has set
+
+
+def rule_r22(ctx):
+    r = ctx.rule("C20.R22", "T3", "where a subsystem's init function calls its own fini function to unwind a failure, every global pointer that "
+                 "the fini tests and releases has been assigned by this run of the init before the call, or the fini resets it "
+                 "after releasing it -- the library can be initialised again after nng_fini, and a pointer left over from the "
+                 "previous cycle is released a second time", floor=2)
+    prog = ctx.prog
+    n = 0
+    for I in prog.functions:
+        if I.cfg_failed or not ("sysinit" in I.name or "sys_init" in I.name):
+            continue
+        for c in I.calls():
+            fnm = c.node.get("fn") or ""
+            if not ("sysfini" in fnm or "sys_fini" in fnm):
+                continue
+            F = prog.resolve(I, fnm)
+            if F is None or F.cfg_failed:
+                continue
+            # global pointers the fini releases (passed to a free) and does not reset afterwards
+            freed = {}
+            for k in F.calls(("nni_free", "nni_thr_fini")):
+                for m in walk(k.node):
+                    if m.get("k") == "var" and m.get("vk") == "global" and "*" in (m.get("t") or ""):
+                        freed.setdefault(m["n"], k)
+            for g, k in sorted(freed.items()):
+                resets = [t for t in F.assigns() if t.node["lhs"].get("k") == "var" and t.node["lhs"]["n"] == g and is_null(F.expand(t.node["rhs"]))]
+                n += 1
+                if resets:
+                    r.ob(I, "%s: %s resets %s after releasing it" % (I.name, F.name, g))
+                    continue
+                sets = {(t.b, t.i) for t in I.assigns() if t.node["lhs"].get("k") == "var" and t.node["lhs"]["n"] == g}
+                if sets and I.dominated_by((c.b, c.i), blocked=lambda b, i, e: (b, i) in sets):
+                    r.ob(I, "%s line %s: %s was assigned by this run before %s is called" % (I.name, c.line, g, F.name))
+                else:
+                    ctx.fail(r, I, "%s unwinds with a %s it has not set" % (F.name, g), c.line,
+                             "%s calls %s at line %s before it has assigned %s in this run; %s releases %s when it is not NULL and "
+                             "never resets it: on a second nng_init after nng_fini the pointer of the previous cycle is released again"
+                             % (I.name, F.name, c.line, g, F.name, g))
+    if n < 2:
+        raise AnalysisBroken("only %d (init unwinding through its fini, global released) instances found" % n)
+
+
 def run(ctx):
     ctx.guard(rule_r1)
     ctx.guard(rule_r2)
@@ -1802,3 +1905,5 @@ def run(ctx):
     ctx.guard(rule_r18)
     ctx.guard(rule_r19)
     ctx.guard(rule_r20)
+    ctx.guard(rule_r21)
+    ctx.guard(rule_r22)
